@@ -199,4 +199,39 @@ var plans = map[string]Plan{
 			{Name: "fuzz", Pkg: "./checks/c11", Fuzz: "FuzzParse", Shards: [2]int{0, 1}, FuzzTime: [2]time.Duration{0, 120 * time.Second}, Weight: 16, Env: []string{"C11_AVOID=K2,N1"}},
 		},
 	},
+	"C16": {
+		Level: "fault_enumeration",
+		Rule: "cases are script sets for 1-3 scripted fake plugins (own framing / envelopes via internal/refcodec) run by the real thriftrw binary: per protocol step (handshake, generate, goodbye) x fault kind (ok, wrong name, wrong API version, feature missing, missing field, exception envelope, wrong envelope type, garbage frame, raw garbage, truncation at every byte offset of the reply frame, oversized length prefix, exit before read / after read / after reply) x write mode (whole, bytewise, drawn segments with pauses) x exit status x linger. Complete grids: truncation (210), fault (126), pairs (1764, thorough); random scripts; the public plugin.Main driven over a segmented byte stream. " +
+			"Oracle (history checking): each plugin's event trace is accepted by the protocol automaton; generate only after a conforming handshake; exactly one goodbye to every conforming plugin still reading; every started plugin saw EOF and exited before the host; host exit status != 0 iff some plugin failed, and then stderr names it. " +
+			"Non-trivial: >=1 deviation or >=2 plugins. Distinct: SHA-256 of the script set.",
+		Assumptions: []string{
+			"which fault kinds make a plugin 'failed' is fixed by harness/fplab.IsFailure (everything except ok, feature-missing, segmented writes, linger, exit-after-goodbye-reply)",
+			"one O_APPEND event log gives the global order of plugin events and the host-exit marker; 60 s ceiling (x2) for hangs",
+		},
+		Prebuild: []Prebuild{{Name: "thriftrw", Pkg: "go.uber.org/thriftrw"}, {Name: "fakeplugin", Pkg: "verif/harness/fakeplugin"}, {Name: "libplugin", Pkg: "verif/harness/libplugin"}},
+		Units: []Unit{
+			{Name: "truncation-grid", Pkg: "./checks/c16", Run: "^TestTruncationGrid$", Shards: [2]int{2, 2}},
+			{Name: "fault-grid", Pkg: "./checks/c16", Run: "^TestFaultGrid$", Shards: [2]int{2, 2}},
+			{Name: "pair-grid", Pkg: "./checks/c16", Run: "^TestPairGrid$", Shards: [2]int{0, 8}},
+			{Name: "random", Pkg: "./checks/c16", Run: "^TestRandomScripts$", Rapid: true, Shards: [2]int{10, 16}, Checks: [2]int{40, 250}},
+			{Name: "lib", Pkg: "./checks/c16", Run: "^TestLibPlugin$", Rapid: true, Shards: [2]int{2, 4}, Checks: [2]int{150, 2000}},
+		},
+	},
+	"C17": {
+		Level: "fault_enumeration",
+		Rule: "cases are sandboxes (Thrift sources in a layout, output dir fresh or pre-populated, 0-3 scripted plugins returning files) run through the real thriftrw binary with the whole sandbox snapshotted (path, mode, SHA-256) before and after. Complete grids: 11 plugin path shapes x {independent, equal to a core path, equal to another plugin's path} x pre-population (66); k-th of n modules fails x 5 failure kinds (500); failing plugin i of n x 20 handshake/generate failure kinds (240); 11 thrift-root / out-dir layouts (396); plus random combinations. " +
+			"Oracle: nothing outside the output dir changes; exit != 0 => snapshot unchanged; same destination from two sources => error; exit 0 => exactly the predicted files exist with the predicted contents. " +
+			"Non-trivial: a plugin path that is not a plain relative path, or a case that must fail. Distinct: SHA-256 of the case JSON.",
+		Assumptions: []string{
+			"lexical cleaning is the meaning of 'the same path' (no symlinks in the sandbox); only handshake- and generate-phase plugin failures are injected (as the statement lists); write-phase I/O errors are outside the statement (see DESIGN.md)",
+		},
+		Prebuild: []Prebuild{{Name: "thriftrw", Pkg: "go.uber.org/thriftrw"}, {Name: "fakeplugin", Pkg: "verif/harness/fakeplugin"}},
+		Units: []Unit{
+			{Name: "path-grid", Pkg: "./checks/c17", Run: "^TestPathGrid$", Shards: [2]int{1, 1}},
+			{Name: "module-failure-grid", Pkg: "./checks/c17", Run: "^TestModuleFailureGrid$", Shards: [2]int{3, 3}},
+			{Name: "plugin-failure-grid", Pkg: "./checks/c17", Run: "^TestPluginFailureGrid$", Shards: [2]int{2, 2}},
+			{Name: "layout-grid", Pkg: "./checks/c17", Run: "^TestLayoutGrid$", Shards: [2]int{3, 3}},
+			{Name: "random", Pkg: "./checks/c17", Run: "^TestRandom$", Rapid: true, Shards: [2]int{7, 16}, Checks: [2]int{40, 200}},
+		},
+	},
 }
